@@ -17,7 +17,7 @@ import re
 import tempfile
 
 from . import tlc
-from .common import BUILD, Report, jdump, use_repo
+from .common import BUILD, Report, jdump, sig_hash, use_repo
 
 PROPS = ("C01", "C02", "C03", "C05")
 
@@ -27,6 +27,10 @@ CLAUSES = {
     "C03": ("c03_sound", "c03_verdict"),
     "C05": ("c05_details", "c05_bytes", "c05_handlers"),
 }
+# configs whose programs are also run by SynchronousDeferredRunTest / AsynchronousDeferredRunTest: cfg -> modulus of
+# the sample (hash % m == 0: syncd, == 1: async)
+RUNNER_CFGS = {"rt_exp_faults1.cfg": 3, "rt_exp_faults.cfg": 6, "rt_exp_faults_t.cfg": 3, "rt_exp_nested.cfg": 2}
+
 MC_CFGS = {
     "quick": (("rt_mc1.cfg", False), ("rt_mc_x.cfg", False), ("rt_coded.cfg", True)),
     "thorough": (("rt_mc1.cfg", False), ("rt_mc_x.cfg", False), ("rt_mc_t.cfg", False), ("rt_coded.cfg", True)),
@@ -155,7 +159,43 @@ def observe(prog, flavours, runner=None):
 
 
 def _observe_job(job):
-    return observe(job[0], job[1])
+    tr = observe(job[0], job[1], job[2] if len(job) > 2 else None)
+    if len(job) > 2 and job[2]:
+        tr["runner"] = job[2]
+        tr["judge"] = runner_clauses(job[0], job[2])
+    return tr
+
+
+BASE_KINDS = ("ki", "exit", "subki", "abort")
+C02_CLAUSES = ("c01_bracket", "c02_order", "c02_undone", "c02_rerun")
+
+
+def _mentions(prog, names, units=None):
+    return any(
+        st.get("a") in names or st.get("b") in names
+        for u, sc in prog["script"].items()
+        if units is None or u in units
+        for st in sc
+    )
+
+
+def runner_clauses(prog, runner):
+    """Which clauses a run of `prog` by one of the Twisted runners is judged on (None = all, () = do not run).
+    SynchronousDeferredRunTest: everything (a synchronous program must behave as under RunTest, cf. C20).
+    AsynchronousDeferredRunTest: its cleanup loop is a different mechanism (tracebacks attached directly, only the last
+    cleanup exception takes part in the outcome, MultipleExceptions not unpacked there) and the listed properties do not
+    quantify over runners: staging, order, undo and re-run (C02) are judged for every program without a
+    non-Exception fault; outcome and details (C01 base / C03 / C05) only when no cleanup raises."""
+    if prog["decor"] or prog["xfdec"]:
+        return ()
+    if runner == "syncd":
+        return None
+    if _mentions(prog, BASE_KINDS):
+        return ()
+    cleanup_faulty = any(
+        sc and sc[-1]["op"] not in ("ret",) for u, sc in prog["script"].items() if u not in ("setUp", "body", "tearDown")
+    )
+    return C02_CLAUSES if cleanup_faulty else None
 
 
 def fault_key(prog):
@@ -210,7 +250,8 @@ def validate(rep, traces, workers=8):
     fd, path = tempfile.mkstemp(prefix="rt-trace-", suffix=".json", dir=BUILD)
     try:
         with os.fdopen(fd, "w") as f:
-            json.dump(traces, f)
+            # "runner" / "judge" are the driver's own bookkeeping (and JSON null is not a TLA+ value)
+            json.dump([{k: v for k, v in t.items() if k in ("prog", "obs")} for t in traces], f)
         r = tlc.run_tlc(
             "lifecycle",
             "RunTestTrace",
@@ -317,11 +358,13 @@ def run(tier, pid):
             if not v["anomalies"]:
                 raise tlc.MachineryError("synthesised program misbehaved (harness anomaly): %s" % jdump(tr["prog"]))
             for clause in CLAUSES[pid]:
+                if tr.get("judge") is not None and clause not in tr["judge"]:
+                    continue
                 if not v[clause]:
                     rep.violation(
                         clause,
-                        classify(tr, v, clause),
-                        {"prog": tr["prog"]},
+                        classify(tr, v, clause) + (":runner=" + tr["runner"] if tr.get("runner") else ""),
+                        {"prog": tr["prog"], "runner": tr.get("runner")},
                         expected={"allowed": v["allowed"], "nraised": v["nraised"]},
                         observed=tr["obs"],
                     )
@@ -366,6 +409,12 @@ def run(tier, pid):
                     continue
                 seen_progs.add(k)
                 todo.append((p, flavours))
+                # the same programs run by the Twisted runners (a deterministic sample: by content hash)
+                if cfg in RUNNER_CFGS:
+                    h = int(sig_hash(k), 16)
+                    for i, runner in enumerate(("syncd", "async")):
+                        if h % RUNNER_CFGS[cfg] == i and runner_clauses(p, runner) != ():
+                            todo.append((p, ("ext",), runner))
             # 3. run the real code (programs are independent: in parallel, order preserved)
             for obs in pool.imap(_observe_job, todo, chunksize=64):
                 batch.append(obs)
@@ -473,10 +522,12 @@ def replay_file(path, pid):
     from . import synth
 
     v = json.load(open(path))
-    tr = observe(v["scenario"]["prog"], synth.FLAVOURS)
+    runner = v["scenario"].get("runner")
+    tr = observe(v["scenario"]["prog"], ("ext",) if runner else synth.FLAVOURS, runner)
     rep = Report(pid, "quick", "model_checking", "replay")
     verdict = validate(rep, [tr])[1]
-    bad = [c for c in CLAUSES[pid] if not verdict[c]]
+    mask = runner_clauses(tr["prog"], runner) if runner else None
+    bad = [c for c in CLAUSES[pid] if not verdict[c] and (mask is None or c in mask)]
     print("replay verdict:", {c: verdict[c] for c in CLAUSES[pid]})
     if bad:
         print("VIOLATION property=%s replay=%s" % (pid, path))
